@@ -198,8 +198,8 @@ func scenStartOffset(s *Sim) {
 	}
 	first := map[int32]*kgo.Record{}
 	var fmu sync.Mutex
-	// a partition appears in a Fetch request of the consumer once its start
-	// position is resolved
+	// a partition appears in a Fetch request of the consumer, at a position
+	// inside the log, once its start position is resolved
 	resolved := map[int32]bool{}
 	s.OnReq = append(s.OnReq, func(r *WireReq) {
 		fr, ok := r.Req.(*kmsg.FetchRequest)
@@ -213,7 +213,12 @@ func scenStartOffset(s *Sim) {
 				continue
 			}
 			for j := range fr.Topics[i].Partitions {
-				resolved[fr.Topics[i].Partitions[j].Partition] = true
+				// (a position outside the log is answered OFFSET_OUT_OF_RANGE
+				// and resolved again: not resolved yet)
+				fp := &fr.Topics[i].Partitions[j]
+				if b := before[fp.Partition]; b != nil && fp.FetchOffset >= b.LogStart && fp.FetchOffset <= b.HWM {
+					resolved[fp.Partition] = true
+				}
 			}
 		}
 	})
